@@ -37,6 +37,7 @@ package ast
 // Every function of the package is verified on its own and used through
 // its contract at call sites.
 //@ default opaque
+//@ default variants
 
 //@ func (Pos).IsZero
 //@   ensures result == (p.line == 0 && p.col == 0)
@@ -80,6 +81,11 @@ package ast
 //@   ensures[C04] not-before-its-start: result.line > w.ValuePos.line || (result.line == w.ValuePos.line && result.col >= w.ValuePos.col)
 //@ func (*Lit).Pos
 //@   ensures[C04] result == w.ValuePos
+// A quotation that has a position has an end: also the lone backslash at the
+// end of the input, which has no value.
+//@ func (*Quote).End
+//@   site VALUE = call ast.(Word).End
+//@   ensures[C04] a-quotation-with-a-position-has-an-end: (w.TokPos.line != 0 || w.TokPos.col != 0) && w.TokPos.col >= 0 && siteret(VALUE).col >= 0 ==> result.line != 0 || result.col != 0
 //@ func (*Quote).Pos
 //@   ensures[C04] result == w.TokPos
 //@ func (*Comment).Pos
